@@ -608,6 +608,13 @@ func (m *Monitor) passOracles(op Op, s Sample) {
 			m.add("C13", "handler-without-change", fmt.Sprintf("OnUpdate of n%d ran in a pass in which n%d was not recomputed to a new value", n, n))
 		}
 	}
+	for n := range updCount {
+		// update handlers are for nodes of the graph: a node that changed and was then torn down in the
+		// same pass (a bind swapped it away) has its handler withdrawn
+		if ref := e.Nodes[n]; ref != nil && !ref.Recycled && ref.Kind != "Sentinel" && !e.G.Has(ref.INode) {
+			m.add("C13", "handler-for-node-out-of-graph", fmt.Sprintf("OnUpdate of n%d ran although n%d is not in the graph when the pass ends", n, n))
+		}
+	}
 	for o, c := range obsCount {
 		if c > 1 {
 			m.add("C13", "observer-handler-twice", fmt.Sprintf("observer o%d OnUpdate ran %d times in one pass", o, c))
